@@ -92,6 +92,7 @@ type Sched struct {
 	Yields    int
 	lockIDs   map[*RWMutex]int
 	every     int
+	atoms     map[uintptr]*atomLoc
 	travel    int64
 	fnCount   int
 	BlockedRW int // probe: a writer had to wait behind readers / reader behind pending writer
